@@ -17,7 +17,18 @@
     _col_finder (pivot walk with break), lc_graph_operations / _R_matrix / _apply_f / _singles / _doubles / _condition
       (R-matrix reduction: algorithmic theorem of Van den Nest et al., while-loops without a known variant);
     Graph.lc_equivalent / Graph.is_graph_state's LC bookkeeping (the Graph is assumed to hold a graph state);
-    local_cliff_equi_check.py (lc_check, converter_gate_list, state_converter_circuit): certificate contracts, bounded only.
+    local_cliff_equi_check.py: that the assembled gates map state 1 onto state 2 (needs the three facts above) - bounded only.
+[P] gate-list assembly of local_cliff_equi_check.py (contracts/lc_gate_lists.py, pyvc/gateseq.py):
+    lc_check: returned list == gates1 + converter gates + inverse(gates2) with inverse = REVERSED order and every gate inverted
+      (H, Z, X, I self-inverse, P_dag <-> P) for gate lists of symbolic length over the whole six-letter alphabet (MAP rule: complete
+      case split per element, induction over the length) - any re-ordering (sort), missing reversal, wrong inverse table or segment
+      order fails `post.total.*` and is replayed on the real code; (False, []) when the converter raises; validate=True validates the
+      returned list on a copy of tab1 against canonical(tab2).
+    converter_gate_list [F: 36 word pairs x 4 corrections, n = 2]: per qubit the local-Clifford word in reversed word order, then the
+      sign repair computed for exactly that list; is_lc_equivalent(adj(g1), adj(g2)) in this order.
+    str_to_op [F: 6 names], state_converter_circuit [trace, validate=False]: one operation per gate of lc_check's list, in order.
+    linalg._row_red_one_step / row_reduction (contracts/row_reduction.py): X and the companion matrix are transformed in lockstep by
+      row_swap / add_rows only (same rows, add_rows source != target) - the null space / row space is preserved step by step.
 """
 from __future__ import annotations
 
@@ -30,14 +41,17 @@ from lemmas import matsum, lc_tables
 
 def deductive(tier="quick", seed=0):
     from contracts import lc_rmatrix as RMX
+    from contracts import lc_gate_lists as LGL, row_reduction as RRM
+    from lemmas import gateseq_checks
 
-    d = run_tasks(L.tasks() + GL.tasks() + RMX.tasks())
+    d = run_tasks(L.tasks() + GL.tasks() + RMX.tasks() + LGL.tasks() + RRM.tasks())
+    gateseq_checks.attach(d, seed)
     d.obligations.extend(matsum.prove_sum_support2())
     d.obligations.extend(lc_tables.obligations())
     from lemmas import model_checks
 
     model_checks.attach(d, seed)
-    can = run_tasks(L.canary_tasks() + GL.canary_tasks())
+    can = run_tasks(L.canary_tasks() + GL.canary_tasks() + LGL.canary_tasks() + RRM.canary_tasks()[1:])
     d.errors.extend(can.errors)
     d.canaries = TS.canary_summary(can) + [matsum.canary()]
     for c in d.canaries:
@@ -52,10 +66,12 @@ def deductive(tier="quick", seed=0):
         "conditions are proved for the matrix local_comp_graph hands over)",
         "[A] matrix-product reading of numpy `@`; closed forms by L2 SUM_SUPPORT2 (proved every run)",
         "[B-only] is_lc_equivalent (soundness chain and completeness), _solution_basis_finder, _vec_solution_finder, "
-        "_random_checker, _col_finder, lc_graph_operations and helpers, local_cliff_equi_check.py",
+        "_random_checker, _col_finder, lc_graph_operations and helpers; local_cliff_equi_check.py: only the gate-list ASSEMBLY is [P] "
+        "(contracts/lc_gate_lists.py), that the gates map state 1 onto state 2 is bounded",
         "[A] networkx edge-level API on the abstract graph (has_node, has_edge, add_edge, remove_edge, neighbors as a duplicate-free "
         "enumeration of the adjacent nodes) and itertools.combinations(l, 2) in lexicographic position order",
     ]
+    d.trusted_base += LGL.TRUSTED + RRM.TRUSTED
     d.assumptions += [
         "_R_matrix: adjacency n x n, solution n x 2 x 2 (shapes from its only call site); dtype of the adjacency input int or float "
         "(both checked: np.asarray / in-place arithmetic alias differently)",
